@@ -1359,7 +1359,35 @@ def _median(I, a, k):
 def _unique(I, a, k):
     if not _anysym(a, k):
         return NotImplemented
-    raise Unsupported("np.unique of a symbolic array")
+    x = A.as_sarr(a[0])
+    if x.ndim != 1 or k.get("axis") is not None or k.get("return_index"):
+        raise Unsupported("np.unique of a symbolic n-d array / with return_index")
+    # A-NP-SPEC unique (1-D): the sorted distinct values u (m of them), the inverse map inv with u[inv[i]] == x[i], and the multiplicities
+    xs = x.snapshot()
+    n = A.T(x.shape[0])
+    m = z3.Int(fresh_name("nuniq"))
+    srt = A.sort_of(x.dtype)
+    u = z3.Function(fresh_name("uniq"), z3.IntSort(), srt)
+    inv = z3.Function(fresh_name("uinv"), z3.IntSort(), z3.IntSort())
+    rep = z3.Function(fresh_name("urep"), z3.IntSort(), z3.IntSort())        # a position of x holding the k-th distinct value
+    cnt = z3.Function(fresh_name("ucnt"), z3.IntSort(), z3.IntSort())
+    i, j, q = (z3.Int(fresh_name(v)) for v in "ijq")
+    A.note_fact(m >= 0, m <= n, z3.Implies(n >= 1, m >= 1),
+                z3.ForAll([i], z3.Implies(z3.And(i >= 0, i < n), z3.And(inv(i) >= 0, inv(i) < m, u(inv(i)) == xs((i,)))), patterns=[inv(i)]),
+                z3.ForAll([j, q], z3.Implies(z3.And(j >= 0, j < q, q < m), u(j) < u(q)), patterns=[z3.MultiPattern(u(j), u(q))]),
+                z3.ForAll([j], z3.Implies(z3.And(j >= 0, j < m), z3.And(rep(j) >= 0, rep(j) < n, inv(rep(j)) == j, cnt(j) >= 1, cnt(j) <= n)), patterns=[rep(j)]))
+    uarr = SArr(x.dtype, (A.dim(m),), lambda idx: u(idx[0]))
+    c = A.cur()
+    if c is not None:
+        if not hasattr(c, "unique_log"):
+            c.unique_log = []
+        c.unique_log.append({"input": xs, "n": n, "m": m, "values": u, "inverse": inv, "counts": cnt})
+    out = [uarr]
+    if k.get("return_inverse"):
+        out.append(SArr(np.dtype("int64"), (x.shape[0],), lambda idx: inv(idx[0])))
+    if k.get("return_counts"):
+        out.append(SArr(np.dtype("int64"), (A.dim(m),), lambda idx: cnt(idx[0])))
+    return out[0] if len(out) == 1 else tuple(out)
 
 
 @model(np.hanning)
